@@ -613,6 +613,7 @@ class Frame:
         self.tin = set()
         self.local_tags = set()
         self.pending = []             # exceptions raised while evaluating the current statement's expressions
+        self.lazy_exc = {}            # name -> exceptions of a generator expression bound to it: they surface where the name is read
         self.handling = []            # stack of lists of ExcRec being handled (for bare `raise`)
         self.self_atoms = None
         self.yield_cb = None
@@ -1320,7 +1321,20 @@ class Interp:
 
     def st_Assign(self, fr, st, store, out):
         fr.call_alts.pop(id(st.value), None)
-        v = self.eval(fr, st.value)
+        for t in st.targets:
+            if isinstance(t, ast.Name):
+                fr.lazy_exc.pop(t.id, None)
+        if isinstance(st.value, ast.GeneratorExp) and len(st.targets) == 1 and isinstance(st.targets[0], ast.Name):
+            # a generator expression is lazy: what its element / condition expressions raise is raised where the generator is
+            # consumed (next(g), for .. in g, list(g) ...), not where it is created - a try around the creation catches nothing
+            before = len(fr.pending)
+            v = self.eval(fr, st.value)
+            raised = fr.pending[before:]
+            del fr.pending[before:]
+            if raised:
+                fr.lazy_exc[st.targets[0].id] = raised
+        else:
+            v = self.eval(fr, st.value)
         alts = fr.call_alts.pop(id(st.value), None) if isinstance(st.value, ast.Call) else None
         if alts and len(st.targets) == 1 and isinstance(st.targets[0], ast.Name):
             # the callee returns different constants / objects on paths with different facts: one disjunct per alternative
@@ -2791,6 +2805,11 @@ class Interp:
         return av(const(v))
 
     def ex_Name(self, fr, node):
+        if fr.lazy_exc and node.id in fr.lazy_exc and isinstance(node.ctx, ast.Load):
+            have = {r.key() for r in fr.pending}
+            for rec in fr.lazy_exc[node.id]:
+                if rec.key() not in have:
+                    fr.pending.append(rec.via(fr.qual, node))
         return self.lookup(fr, node.id, node)
 
     def ex_NamedExpr(self, fr, node):
